@@ -59,6 +59,73 @@ impl<const N: usize> Rec<N> {
         }
         s
     }
+    /// Sum of all emitted bytes except index 9 (the checksum byte), i.e. the value the checksum byte
+    /// must negate. Mathematically the plain byte sum; *computed* in the association order a
+    /// delta-maintained table uses, purely so that a SAT back end sees syntactically similar adder
+    /// chains: the header region is folded with the length field replaced by the initial length
+    /// `first`, then per entry (cut points = expected entry offsets) the length delta is applied and the
+    /// entry is either folded on (`running`) or summed from zero and added; finally the difference
+    /// between the expected and the actual length bytes is added back, so the result is exact whatever
+    /// the image contains. Cut points only affect solver effort, never the value.
+    pub fn sum_skip9_mirror(&self, cuts: &[usize], ncuts: usize, first: usize, running: bool) -> u8 {
+        let end = if self.len < N { self.len } else { N };
+        let l0 = (first as u32).to_le_bytes();
+        let mut t = 0u8;
+        let mut i = 0;
+        let hdr_end = if ncuts > 0 && cuts[0] < end { cuts[0] } else { end };
+        while i < N {
+            if i < hdr_end && i != 9 {
+                let b = if i >= 4 && i < 8 { l0[i - 4] } else { self.buf[i] };
+                t = t.wrapping_add(b);
+            }
+            i += 1;
+        }
+        let mut cur = first as u32;
+        let mut k = 0;
+        while k < ncuts {
+            let a = if cuts[k] < end { cuts[k] } else { end };
+            let b = if k + 1 < ncuts { if cuts[k + 1] < end { cuts[k + 1] } else { end } } else { end };
+            let new = cur.wrapping_add((b - a) as u32);
+            let o = cur.to_le_bytes();
+            let n = new.to_le_bytes();
+            t = t.wrapping_sub(o[0]).wrapping_sub(o[1]).wrapping_sub(o[2]).wrapping_sub(o[3]);
+            t = t.wrapping_add(n[0]).wrapping_add(n[1]).wrapping_add(n[2]).wrapping_add(n[3]);
+            let mut seg = if running { t } else { 0u8 };
+            let mut j = 0;
+            while j < N {
+                if j >= a && j < b {
+                    seg = seg.wrapping_add(self.buf[j]);
+                }
+                j += 1;
+            }
+            t = if running { seg } else { t.wrapping_add(seg) };
+            cur = new;
+            k += 1;
+        }
+        // exactness: swap the expected final length bytes for the ones actually emitted
+        let c = cur.to_le_bytes();
+        let mut q = 0;
+        while q < 4 {
+            if 4 + q < end {
+                t = t.wrapping_sub(c[q]).wrapping_add(self.buf[4 + q]);
+            } else {
+                t = t.wrapping_sub(c[q]);
+            }
+            q += 1;
+        }
+        t
+    }
+    pub fn sum_skip9(&self) -> u8 {
+        let mut s = 0u8;
+        let mut i = 0;
+        while i < N {
+            if i < self.len && i != 9 {
+                s = s.wrapping_add(self.buf[i]);
+            }
+            i += 1;
+        }
+        s
+    }
     pub fn sum_range(&self, from: usize, to: usize) -> u8 {
         let mut s = 0u8;
         let mut i = 0;
@@ -257,6 +324,24 @@ impl<const N: usize> Aml for Blob<N> {
 /// Symbolic standard-header arguments.
 pub fn sym_oem() -> ([u8; 6], [u8; 8], u32) {
     (kani::any(), kani::any(), kani::any())
+}
+
+/// Header arguments for the checksum *history* harnesses (C01 with adds, SAT back end): everything
+/// concrete except the low byte of the OEM revision, which makes the running sum after `new()` range
+/// over all 256 states. (All header fields symbolic at once is covered by the constructor-only
+/// harnesses; with all of them symbolic *and* delta updates, proving the byte sum needs bit-level
+/// associativity over ~18 operands, which is where SAT solvers stop.)
+pub fn one_byte_oem() -> ([u8; 6], [u8; 8], u32) {
+    let x: u8 = kani::any();
+    (*b"OEMID1", *b"TABLEID1", 0x0102_0300 | x as u32)
+}
+
+pub fn oem_for(p: u8, has_adds: bool) -> ([u8; 6], [u8; 8], u32) {
+    if p == 1 && has_adds {
+        one_byte_oem()
+    } else {
+        sym_oem()
+    }
 }
 
 /// Reference 36-byte header (ACPI 6.5 §5.2.6) with checksum byte left 0.
